@@ -25,6 +25,8 @@ POOL = [
     ("MyInt.new(1)", "myint"), ("MyInt.new(2)", "myint"), ("MyInt.new(-3)", "myint"),
     ("0.0", "float"), ("1.5", "float"), ("-1.5", "float"), ("2.0", "float"), ("-0.0", "float"), ("1.0e300", "float"),
     ('""', "str"), ('"a"', "str"), ('"b"', "str"), ('"ab"', "str"), ('"B"', "str"), ('"1"', "str"),
+    # strings whose code points agree modulo 256 with an ASCII string (U+3042 U+3044 ~ "BD", U+0142 ~ "B"): equality is by characters
+    ('"BD"', "str"), ('"\u3042\u3044"', "str"), ('"\u0142"', "str"), ('"\u00e9"', "str"), ('"e\u0301"', "str"),
     ('MyStr.new("a")', "mystr"), ('MyStr.new("b")', "mystr"),
     ("[]", "arr"), ("[1]", "arr"), ("[1, 2]", "arr"), ("[[1], [2]]", "arr"), ('["a", nil]', "arr"), ("[1.5]", "arr"),
     ("MyArr.new([1])", "myarr"),
@@ -61,7 +63,8 @@ def main(chk):
         for i in idxs:
             for j in idxs:
                 a, b = POOL[i][0], POOL[j][0]
-                progs.append("x := %s\ny := %s\n[x < y, x == y, x > y, x <= y, x >= y, x <=> y, y <=> x]\n" % (a, b))
+                progs.append("x := %s\ny := %s\n[x < y, x == y, x > y, x <= y, x >= y, x <=> y, y <=> x, "
+                             "[x, y].max >= x, [x, y].max >= y, [x, y].min <= x, [x, y].min <= y, [y, x].max == [x, y].max, [y, x].min == [x, y].min]\n" % (a, b))
                 meta.append(("ord", i, j))
         # triples: transitivity and max/min/between?/clip
         trip = list(itertools.product(idxs, repeat=3))
@@ -70,7 +73,9 @@ def main(chk):
             trip = trip[:150]
         for i, j, k in trip:
             a, b, c = POOL[i][0], POOL[j][0], POOL[k][0]
-            progs.append("x := %s\ny := %s\nz := %s\n[x < y, y < z, x < z, [x, y, z].max, [x, y, z].min, y.between?(x, z), y.clip(x, z), x <= y, y <= z]\n" % (a, b, c))
+            progs.append("x := %s\ny := %s\nz := %s\n[x < y, y < z, x < z, [x, y, z].max, [x, y, z].min, y.between?(x, z), y.clip(x, z), x <= y, y <= z, "
+                         "[x, y, z].max.{|m| m >= x && m >= y && m >= z}, [x, y, z].min.{|m| m <= x && m <= y && m <= z}, "
+                         "(y.clip(x, z) == (x if y < x else (z if y > z else y))) if x <= z else true]\n" % (a, b, c))
             meta.append(("tri", i, j, k))
     res = pancore.run_programs(chk, progs, cmp_msg=False, prelude=PRELUDE)
     viol, model_only, hist = [], [], {}
@@ -108,7 +113,8 @@ def main(chk):
                              {"program": prog, "prelude": PRELUDE, "result": rep}, "C18:eq-" + POOL[m[1]][1]))
                 continue
         elif m[0] == "ord":
-            lt, eq, gt, le, ge, c1, c2 = items
+            lt, eq, gt, le, ge, c1, c2 = items[:7]
+            mlaws = items[7:]
             bad = None
             if [lt, eq, gt].count("true") != 1:
                 bad = "not exactly one of <, ==, > holds: %s" % [lt, eq, gt]
@@ -118,17 +124,23 @@ def main(chk):
                 bad = "x <=> y = %s but y <=> x = %s" % (c1, c2)
             elif (c1 == "-1") != (lt == "true") or (c1 == "0") != (eq == "true"):
                 bad = "<=> disagrees with < / ==: %s" % rep
+            elif mlaws != ["true"] * 6:
+                bad = "max / min of [x, y] disagree with the order (max >= both, min <= both, independent of the order of the elements): %s" % mlaws
             if bad:
                 viol.append(("order law broken for x = %s, y = %s: %s" % (names[0], names[1], bad),
                              {"program": prog, "prelude": PRELUDE, "result": rep}, "C18:trichotomy"))
                 continue
         else:
-            xy, yz, xz, mx, mn, btw, clp, le1, le2 = items
+            xy, yz, xz, mx, mn, btw, clp, le1, le2, lmax, lmin, lclip = items
             bad = None
             if xy == "true" and yz == "true" and xz != "true":
                 bad = "x < y and y < z but not x < z"
             elif btw != ("true" if (le1 == "true" and le2 == "true") else "false"):
                 bad = "between? disagrees with <=: %s" % rep
+            elif lmax not in ("true",) or lmin not in ("true",):
+                bad = "max / min is not an upper / lower bound of the three values: max %s min %s (%s)" % (mx, mn, rep)
+            elif lclip != "true":
+                bad = "clip disagrees with the order: y.clip(x, z) = %s" % clp
             if bad:
                 viol.append(("order law broken for %s: %s" % (names, bad), {"program": prog, "prelude": PRELUDE, "result": rep}, "C18:transitivity"))
                 continue
